@@ -348,6 +348,11 @@ func leakKind(cur *ex.E, name string) string {
 					return "idx-object-marked-key"
 				}
 			}
+			// an empty collection of objects: the step is applied to an
+			// unknown object to find the result's element type
+			if ty := v.Type(); ty.IsCollectionType() && ty.ElementType().IsObjectType() {
+				return "idx-object-marked-key"
+			}
 		}
 	}
 	return k
